@@ -156,10 +156,11 @@ theorem commitSize_le (c : Commit) (n : Nat) (hs : ∀ s ∈ c.sigs, badCommitSi
   have : 111 * c.sigs.length ≤ 111 * n := Nat.mul_le_mul_left _ hn
   omega
 
-/-- field bounds of a header a node can hold: chain id within `MaxChainIDLen`, int64 height,
-hashes of at most `tmhash.Size` bytes, a 20-byte proposer address; the application hash may be
-up to 173 bytes -/
+/-- field bounds of a header a node can hold: a one-byte block protocol version (it is 11), chain
+id within `MaxChainIDLen`, int64 height, hashes of at most `tmhash.Size` bytes, a 20-byte proposer
+address; the application hash may be up to 182 bytes (then the header is at most 619 = 626 - 7) -/
 structure HeaderBounds (h : Header) : Prop where
+  vb : h.versionBlock < 128
   chain : h.chainID.length ≤ 50
   height : 0 ≤ h.height ∧ h.height < 9223372036854775808
   lbid : h.lastBlockID.hash.length ≤ 32 ∧ h.lastBlockID.psHash.length ≤ 32 ∧ h.lastBlockID.total < 4294967296
@@ -171,11 +172,11 @@ structure HeaderBounds (h : Header) : Prop where
   lrh : h.lastResultsHash.length ≤ 32
   eh : h.evidenceHash.length ≤ 32
   prop : h.proposer.length ≤ 20
-  app : h.appHash.length ≤ 173
+  app : h.appHash.length ≤ 182
 
 theorem headerSize_le (h : Header) (b : HeaderBounds h) : headerSize h + 7 ≤ 626 := by
   unfold headerSize versionSize
-  have v1 := fVar_le_11 (h.versionBlock : Int)
+  have v1 : fVar (h.versionBlock : Int) ≤ 2 := fVar_lt7 (by omega) (by have := b.vb; omega)
   have v2 := fVar_le_11 (h.versionApp : Int)
   have t := timeSize_le h.time
   have l := blockIDSize_le h.lastBlockID b.lbid.1 b.lbid.2.1 b.lbid.2.2
@@ -189,7 +190,7 @@ theorem headerSize_le (h : Header) (b : HeaderBounds h) : headerSize h + 7 ≤ 6
   have a6 := @fBytes_le h.lastResultsHash.length 32 b.lrh (by omega)
   have a7 := @fBytes_le h.evidenceHash.length 32 b.eh (by omega)
   have a8 := @fBytes_le h.proposer.length 20 b.prop (by omega)
-  have a9 := @fBytes_le2 h.appHash.length 173 b.app (by omega)
+  have a9 := @fBytes_le2 h.appHash.length 182 b.app (by omega)
   rw [fMsg_lt7 (by omega), fMsg_lt7 (by omega), fMsg_lt7 (by omega)]
   omega
 
@@ -390,5 +391,183 @@ theorem weightedMedian_gt (L : Time) (l : List (Time × Int)) (hw : ∀ y ∈ l,
   · intro y hy; exact hw y ((mem_sort y l).mp hy)
   · rw [lowWeight_sort, hd]; omega
   · rw [totalWeight_sort, hd]; omega
+
+end Tmv.Validate
+
+/-! ### exact characterisation of the median rule -/
+namespace Tmv.Validate
+open Tmv.ProtoSize
+
+theorem lowWeight_pos_exists (L : Time) (l : List (Time × Int)) (h : 0 < lowWeight L l) :
+    ∃ y ∈ l, y.1 ≤ L := by
+  induction l with
+  | nil => simp [lowWeight] at h
+  | cons x r ih =>
+    rw [lowWeight_cons] at h
+    by_cases hx : x.1 ≤ L
+    · exact ⟨x, List.mem_cons_self, hx⟩
+    · simp only [hx, if_false] at h
+      obtain ⟨y, hy, hyl⟩ := ih (by omega)
+      exact ⟨y, List.mem_cons_of_mem _ hy, hyl⟩
+
+theorem lowWeight_zero_no_early (L : Time) (l : List (Time × Int)) (hpos : ∀ y ∈ l, 0 < y.2)
+    (h : lowWeight L l = 0) : ∀ y ∈ l, L < y.1 := by
+  induction l with
+  | nil => intro y hy; cases hy
+  | cons x r ih =>
+    rw [lowWeight_cons] at h
+    have hx := hpos x List.mem_cons_self
+    have hr := lowWeight_nonneg L r (fun y hy => Int.le_of_lt (hpos y (List.mem_cons_of_mem _ hy)))
+    by_cases hxl : x.1 ≤ L
+    · simp only [hxl, if_true] at h; omega
+    · simp only [hxl, if_false] at h
+      intro y hy
+      rcases List.mem_cons.mp hy with rfl | hy
+      · exact Int.not_le.mp hxl
+      · exact ih (fun y hy => hpos y (List.mem_cons_of_mem _ hy)) (by omega) y hy
+
+/-- the loop on a non-empty list whose entries are all later than `L` -/
+theorem pick_gt_of_all_gt' (L : Time) (l : List (Time × Int)) (m : Int) (hne : l ≠ [])
+    (hall : ∀ y ∈ l, L < y.1) (hm : m ≤ totalWeight l) : L < pick l m := by
+  induction l generalizing m with
+  | nil => exact absurd rfl hne
+  | cons x r ih =>
+    obtain ⟨t, w⟩ := x
+    unfold pick
+    split
+    · exact hall (t, w) List.mem_cons_self
+    · rename_i hnw
+      rw [totalWeight_cons] at hm
+      simp only at hm
+      by_cases hr : r = []
+      · subst hr; simp [totalWeight] at hm; omega
+      · exact ih (m - w) hr (fun y hy => hall y (List.mem_cons_of_mem _ hy)) (by omega)
+
+/-- the loop stops at or before the last entry stamped `≤ L` once their weight reaches the
+starting value -/
+theorem pick_le (L : Time) (l : List (Time × Int)) (m : Int) (hs : Sorted l)
+    (hw : ∀ y ∈ l, 0 ≤ y.2) (hex : ∃ y ∈ l, y.1 ≤ L) (hlow : m ≤ lowWeight L l) : pick l m ≤ L := by
+  induction l generalizing m with
+  | nil => obtain ⟨y, hy, _⟩ := hex; cases hy
+  | cons x r ih =>
+    obtain ⟨t, w⟩ := x
+    have ht : t ≤ L := by
+      obtain ⟨y, hy, hyl⟩ := hex
+      rcases List.mem_cons.mp hy with rfl | hy
+      · exact hyl
+      · exact Int.le_trans (hs.1 y hy) hyl
+    unfold pick
+    split
+    · exact ht
+    · rename_i hnw
+      rw [lowWeight_cons] at hlow
+      simp only [ht, if_true] at hlow
+      apply ih
+      · exact hs.2
+      · intro y hy; exact hw y (List.mem_cons_of_mem _ hy)
+      · exact lowWeight_pos_exists L r (by omega)
+      · omega
+
+theorem sort_ne_nil (l : List (Time × Int)) (h : l ≠ []) : sortByTime l ≠ [] := by
+  intro hs
+  cases l with
+  | nil => exact h rfl
+  | cons x r =>
+    have : x ∈ sortByTime (x :: r) := (mem_sort x _).mpr List.mem_cons_self
+    rw [hs] at this; cases this
+
+/-- upper half: the median is not later than `hi` when the votes stamped `≤ hi` weigh at least
+`floor(total/2)` -/
+theorem weightedMedian_le (hi : Time) (l : List (Time × Int)) (hw : ∀ y ∈ l, 0 ≤ y.2)
+    (hex : ∃ y ∈ l, y.1 ≤ hi) (hlow : totalWeight l / 2 ≤ lowWeight hi l) :
+    weightedMedian l (totalWeight l) ≤ hi := by
+  unfold weightedMedian
+  have hT : 0 ≤ totalWeight l := by
+    have := lowWeight_nonneg (hi) l hw
+    have h2 : lowWeight hi l ≤ totalWeight l := by
+      clear hlow hex this
+      induction l with
+      | nil => simp [lowWeight, totalWeight]
+      | cons x r ih =>
+        rw [lowWeight_cons, totalWeight_cons]
+        have := ih (fun y hy => hw y (List.mem_cons_of_mem _ hy))
+        have := hw x List.mem_cons_self
+        split <;> omega
+    omega
+  have hd : Int.tdiv (totalWeight l) 2 = totalWeight l / 2 := Int.tdiv_eq_ediv_of_nonneg hT
+  apply pick_le
+  · exact sorted_sort l
+  · intro y hy; exact hw y ((mem_sort y l).mp hy)
+  · obtain ⟨y, hy, hyl⟩ := hex; exact ⟨y, (mem_sort y l).mpr hy, hyl⟩
+  · rw [lowWeight_sort, hd]; exact hlow
+
+/-- **Exactly when the weighted median is later than `L`** (positive weights; `F` = weight
+stamped at or before `L`, `T` = total weight): iff `2F + 2 ≤ T`, or nobody stamped that early,
+(or there is no vote at all and `L` precedes Go's zero time, which `WeightedMedian` then returns).
+So `F < floor(T/2)` is the exact tolerance of the `floor(T/2)` / `median <= weight` rule. -/
+theorem weightedMedian_gt_iff (L : Time) (l : List (Time × Int)) (hpos : ∀ y ∈ l, 0 < y.2) :
+    L < weightedMedian l (totalWeight l) ↔
+      (2 * lowWeight L l + 2 ≤ totalWeight l ∨ (lowWeight L l = 0 ∧ l ≠ []) ∨ (l = [] ∧ L < zeroTime)) := by
+  have hw : ∀ y ∈ l, 0 ≤ y.2 := fun y hy => Int.le_of_lt (hpos y hy)
+  have hF := lowWeight_nonneg L l hw
+  constructor
+  · intro hgt
+    by_cases hl : l = []
+    · subst hl
+      right; right
+      exact ⟨rfl, by simpa [weightedMedian, sortByTime, pick] using hgt⟩
+    · by_cases h0 : lowWeight L l = 0
+      · right; left; exact ⟨h0, hl⟩
+      · left
+        by_cases hc : 2 * lowWeight L l + 2 ≤ totalWeight l
+        · exact hc
+        · exfalso
+          have hle : weightedMedian l (totalWeight l) ≤ L := by
+            apply weightedMedian_le L l hw (lowWeight_pos_exists L l (by omega))
+            omega
+          exact absurd hgt (Int.not_lt.mpr hle)
+  · rintro (h | ⟨h0, hl⟩ | ⟨hl, hz⟩)
+    · exact weightedMedian_gt L l hw h
+    · unfold weightedMedian
+      apply pick_gt_of_all_gt' L _ _ (sort_ne_nil l hl)
+      · intro y hy
+        exact lowWeight_zero_no_early L l hpos h0 y ((mem_sort y l).mp hy)
+      · rw [totalWeight_sort]
+        have hT : 0 ≤ totalWeight l := by
+          clear h0 hl hF
+          induction l with
+          | nil => simp [totalWeight]
+          | cons x r ih =>
+            rw [totalWeight_cons]
+            have := ih (fun y hy => hpos y (List.mem_cons_of_mem _ hy)) (fun y hy => hw y (List.mem_cons_of_mem _ hy))
+            have := hw x List.mem_cons_self
+            omega
+        rw [Int.tdiv_eq_ediv_of_nonneg hT]; omega
+    · subst hl
+      simpa [weightedMedian, sortByTime, pick] using hz
+
+/-- **median between correct** (both halves, exact tolerances of the `floor(T/2)` rule): let the
+correct voters' timestamps lie in `[lo, hi]` (at least one of them is in the commit). If the weight
+stamped before `lo` is below `floor(T/2)` (or nil) and the weight stamped after `hi` is at most
+`ceil(T/2)`, the median lies in `[lo, hi]`. The rule is asymmetric: it tolerates `ceil(T/2)` late
+weight but only `floor(T/2) - 1` early weight. -/
+theorem median_between_correct (l : List (Time × Int)) (lo hi : Time) (hpos : ∀ y ∈ l, 0 < y.2)
+    (hcorrect : ∃ y ∈ l, lo ≤ y.1 ∧ y.1 ≤ hi)
+    (hearly : 2 * lowWeight (lo - 1) l + 2 ≤ totalWeight l ∨ lowWeight (lo - 1) l = 0)
+    (hlate : 2 * (totalWeight l - lowWeight hi l) ≤ totalWeight l + 1) :
+    lo ≤ weightedMedian l (totalWeight l) ∧ weightedMedian l (totalWeight l) ≤ hi := by
+  have hw : ∀ y ∈ l, 0 ≤ y.2 := fun y hy => Int.le_of_lt (hpos y hy)
+  obtain ⟨y, hy, hylo, hyhi⟩ := hcorrect
+  have hne : l ≠ [] := by intro h; subst h; cases hy
+  constructor
+  · have : lo - 1 < weightedMedian l (totalWeight l) := by
+      rw [weightedMedian_gt_iff (lo - 1) l hpos]
+      rcases hearly with h | h
+      · exact Or.inl h
+      · exact Or.inr (Or.inl ⟨h, hne⟩)
+    have h := Int.add_one_le_of_lt this
+    rwa [Int.sub_add_cancel] at h
+  · apply weightedMedian_le hi l hw ⟨y, hy, hyhi⟩
+    omega
 
 end Tmv.Validate
